@@ -67,3 +67,35 @@ def broken_links(outdir, only_html=True):
 
 def cleanup(d):
     shutil.rmtree(d, ignore_errors=True)
+
+
+def broken_fragments(outdir):
+    """[(page, url)] for local links page.html#fragment whose file is missing or holds no element with that id"""
+    from urllib.parse import unquote
+    bad = []
+    ids = {}
+    for root, _, fs in os.walk(outdir):
+        for fn in fs:
+            if not fn.endswith(".html"):
+                continue
+            p = os.path.join(root, fn)
+            text = open(p, encoding="utf-8", errors="replace").read()
+            for m in re.finditer(r"""(?:href|xlink:href)\s*=\s*["']([^"']+)["']""", text, re.I):
+                u = m.group(1).strip()
+                if "#" not in u or re.match(r"^[a-zA-Z][a-zA-Z0-9+.-]*:", u) or u.startswith("//") or "{" in u:
+                    continue
+                path, frag = u.split("#", 1)
+                if not frag:
+                    continue
+                tgt = os.path.normpath(os.path.join(root, path)) if path else p
+                if not tgt.endswith(".html"):
+                    continue
+                if not os.path.exists(tgt):
+                    bad.append((os.path.relpath(p, outdir), u))
+                    continue
+                if tgt not in ids:
+                    t2 = open(tgt, encoding="utf-8", errors="replace").read()
+                    ids[tgt] = set(re.findall(r"""\b(?:id|name)=["']([^"']+)["']""", t2))
+                if frag not in ids[tgt] and unquote(frag) not in ids[tgt]:
+                    bad.append((os.path.relpath(p, outdir), u))
+    return bad
